@@ -74,16 +74,19 @@ Fixpoint scan_until (pat : list Z) (l : list Z) : option (Z * bool) :=
       else r <- scan_until pat t ;; Some (1 + fst r, snd r)
   end.
 
-(* loop of shiftDOCTYPEText with its two flags *)
-Fixpoint scan_doctype (inS inB : bool) (l : list Z) : option (Z * bool) :=
+(* loop of shiftDOCTYPEText: q is the quote character of the literal the scan is in (0 = none),
+   inB the inBrackets flag *)
+Fixpoint scan_doctype (q : Z) (inB : bool) (l : list Z) : option (Z * bool) :=
   match l with
   | [] => None
   | c :: t =>
-      if c =? 34 then r <- scan_doctype (negb inS) inB t ;; Some (1 + fst r, snd r)
-      else if ((c =? 91) || (c =? 93)) && negb inS then r <- scan_doctype inS (c =? 91) t ;; Some (1 + fst r, snd r)
+      let inS := negb (q =? 0) in
+      if (c =? q) && inS then r <- scan_doctype 0 inB t ;; Some (1 + fst r, snd r)
+      else if ((c =? 34) || (c =? 39)) && negb inS then r <- scan_doctype c inB t ;; Some (1 + fst r, snd r)
+      else if ((c =? 91) || (c =? 93)) && negb inS then r <- scan_doctype q (c =? 91) t ;; Some (1 + fst r, snd r)
       else if (c =? 62) && negb inS && negb inB then Some (0, true)
       else if c =? 0 then Some (0, false)
-      else r <- scan_doctype inS inB t ;; Some (1 + fst r, snd r)
+      else r <- scan_doctype q inB t ;; Some (1 + fst r, snd r)
   end.
 
 (* number of leading whitespace bytes (the backwards loop of shiftEndTag runs on the reversed text) *)
@@ -152,7 +155,7 @@ Definition shift_cdata (z : lx) : option sres :=
   Some (Some t, fst sh, snd sh).
 
 Definition shift_doctype (z : lx) : option sres :=
-  r <- scan_doctype false false (suffix z) ;;
+  r <- scan_doctype 0 false (suffix z) ;;
   let z1 := mv z (fst r) in
   t <- lex_sub z1 9 (mark z1) ;;
   sh <- shift_c (if snd r then mv z1 1 else z1) ;;
